@@ -258,7 +258,9 @@ class SyncObj(object):
         self.__newAppendEntriesTime = 0
 
         self.__commandsWaitingCommit = collections.defaultdict(list)  # logID => [(termID, callback), ...]
-        self.__commandsLocalCounter = 0
+        # ids of forwarded requests must not repeat after a restart: the answer to a request of the previous
+        # incarnation of this node may still arrive and would be taken for the answer to a new request
+        self.__commandsLocalCounter = random.getrandbits(48)
         self.__commandsWaitingReply = {}  # commandLocalCounter => callback
 
         self.__properies = set()
